@@ -146,6 +146,7 @@ impl Scenario for C08 {
                         prefix.extend_from_slice(&b);
                     }
                     1 => {}
+                    2 if rng.chance(1, 6) => prefix.extend_from_slice(&zero_replacement_bytes(kind).unwrap_or_else(|| vec![1; n])),
                     _ => prefix.extend_from_slice(&rng.bytes(n)),
                 }
                 let mut src = SourceSpec { zero_run: 0, prefix, key: rng.u64() | 1, fault: None };
